@@ -11,7 +11,7 @@ import (
 )
 
 // VH_C12_DisciplineSeq: height 1 round 0 entered with no votes yet (0/1 header), then
-// quick: 2 events of any kind + 1 event without new vote numbers; thorough: 4 events.
+// 2 events of any kind + 1 (quick) / 2 (thorough) events without new vote numbers.
 func VH_C12_DisciplineSeq() {
 	vhOpts()
 	e := vhNewSM(true)
@@ -37,8 +37,8 @@ func VH_C12_DisciplineSeq() {
 }
 
 // VH_C12_DisciplineStartAny: start-up answered with an arbitrary view (every step the
-// start-up path can begin in) or a committed header, then 2 events of any kind of which at
-// most one brings new vote numbers (quick) / 3 events (thorough).
+// start-up path can begin in) or a committed header, then 1 event of any kind (thorough:
+// also the general view update) + 1 (quick) / 2 (thorough) events without new vote numbers.
 func VH_C12_DisciplineStartAny() {
 	vhOpts()
 	e := vhNewSM(true)
@@ -47,12 +47,7 @@ func VH_C12_DisciplineStartAny() {
 		return
 	}
 	e.check(chkC12)
-	if verifrt.Thorough() {
-		e.run(chkC12, vhEvents(), 3)
-	} else {
-		e.viewsLeft = 1
-		e.run(chkC12, vhEvents(), 2)
-	}
+	e.runStartAny(chkC12)
 	if e.seen&vhSeenReplaying != 0 {
 		verifrt.Reach("C12-start:replaying")
 	}
